@@ -43,10 +43,43 @@ def corrupt_var(t):
     return None
 
 
+def domname_rows(run):
+    """every property name of the repository's profiles -> rows with the DOM name computed by TLC (spec/DomNames.tla)"""
+    import os, sys
+    from harness import tlc, matrix
+    from harness.report import Machinery
+    sys.path.insert(0, "/repo")
+    import cssutils.profiles
+    names = sorted({n for g in cssutils.profiles.properties for n in cssutils.profiles.properties[g]})
+    path = os.path.join(run.work, "names.ndjson")
+    with open(path, "w") as f:
+        for n in names:
+            f.write(json.dumps({"css": [ord(c) for c in n]}) + "\n")
+    res = tlc.run("DomNames", "DomNames.cfg", run.work + "/domnames", workers=1, env={"NAMES_FILE": path})
+    if not res.ok:
+        raise Machinery("TLC DomNames failed: %s %s\n%s" % (res.errors, res.violated, res.out[-1500:]))
+    run.add_design(res, "DomNames:DomNames.cfg")
+    rows = tlc.json_lines(res, "ROW")
+    if len(rows) != len(names):
+        raise Machinery("DomNames enumerated %d rows for %d names" % (len(rows), len(names)))
+
+    def corrupt(t):
+        t["steps"][0]["post"]["byattr"] = "x"
+        return t
+    matrix.judge(run, "DomNamesTrace", "adapters.declblock", "run_domname", rows,
+                 lambda t, s, c: "C10|DomNames|%s|%s" % (c, t["item"]["name"]), corrupt,
+                 what=lambda t, s: "property %s, attribute %s: %s" % (t["item"]["name"], t["item"]["attr"], json.dumps(t["steps"][0]["post"])[:200]),
+                 nontrivial=lambda t: t["item"]["name"])
+    run.notes["dom_names"] = len(rows)
+
+
 def main(tier, seed):
     q = tier == "quick"
+    from harness.report import Run
+    run0 = Run("C10", tier, seed)
+    domname_rows(run0)
     run = history.check(
-        "C10", tier, seed, machine="VarBlock", mc_cfg="VarBlock_%s.cfg" % tier, gen_cfg="VarBlock_gen_%s.cfg" % tier,
+        "C10", tier, seed, run=run0, machine="VarBlock", mc_cfg="VarBlock_%s.cfg" % tier, gen_cfg="VarBlock_gen_%s.cfg" % tier,
         trace_module="VarBlockTrace", adapter="adapters.varblock", sig=sig_var, corrupt=corrupt_var,
         tour_cap=8000 if q else 100000, n_walks=200 if q else 3000, walk_len=20 if q else 40, nontrivial=nontrivial,
         variants=[{}, {"comments": True}], finish=False)
